@@ -169,11 +169,21 @@ func c01Run(r *vt.Run, c c01Case) (points []sim.Point, devDesc string, found []c
 		freezeOver := false
 		frozenRO := map[string]bool{}
 		frozenIO := map[string]bool{}
+		// roByProcedure: super_read_only set on the node by this procedure (and seen to succeed), not
+		// revoked since - whichever phase it happened in (the freeze goes node by node, each with its
+		// own offline_mode on/off, so "before the first OFFLINE_OFF" would miss all but the first)
+		roByProcedure := map[string]bool{}
 		w.OnApply = append(w.OnApply, func(ap *sim.Applied) {
 			if ap.Call.Kind != "sql" || !ap.Effect {
 				return
 			}
 			known := ap.Point.Dev != sim.DevLost // the procedure saw the statement succeed
+			switch ap.Call.Op {
+			case "SET_SUPER_RO":
+				roByProcedure[ap.Call.Target] = known
+			case "SET_WRITABLE":
+				roByProcedure[ap.Call.Target] = false
+			}
 			switch ap.Call.Op {
 			case "CHANGE_SOURCE", "RESET_REPLICA_ALL", "OFFLINE_OFF":
 				freezeOver = true // phases 1-2 are over: later IO-thread restarts are semi-sync toggles
@@ -206,7 +216,7 @@ func c01Run(r *vt.Run, c c01Case) (points []sim.Point, devDesc string, found []c
 					switch {
 					case x == p:
 						F = append(F, x)
-					case !s.Up && frozenRO[x] && frozenIO[x] && s.Positions().SubsetOf(ps.Executed):
+					case !s.Up && (frozenRO[x] && frozenIO[x] || roByProcedure[x]) && s.ReadOnly && s.Positions().SubsetOf(ps.Executed):
 						// frozen by this procedure, then lost: its durable state holds nothing beyond the
 						// promoted node and it restarts read-only, so it still backs the quorum
 						F = append(F, x)
@@ -251,6 +261,9 @@ func c01Run(r *vt.Run, c c01Case) (points []sim.Point, devDesc string, found []c
 			freezeOver = false
 			for k := range frozenRO {
 				delete(frozenRO, k)
+			}
+			for k := range roByProcedure {
+				delete(roByProcedure, k)
 			}
 			for k := range frozenIO {
 				delete(frozenIO, k)
